@@ -95,6 +95,8 @@ def install():
         sim = _state["sim"]
         if sim is not None and sim.recording:
             sim.on_fs("exec", ["exec:" + os.path.basename(str(cmd[0]))], {})
+            if getattr(sim, "second_worker", False) and not getattr(sim, "in_second", False) and not sim.in_nested and os.path.basename(str(cmd[0])) in ("rsync", "bbcp"):
+                sim._second_worker()
         return _real["run_command"](cmd, *a, **k)
 
     util.run_command = run_command
@@ -349,6 +351,30 @@ class Sim:
         h.alive = True
         self.hosts[hostname] = h
         return h
+
+    def _second_worker(self):
+        """a second worker of the same daemon: while the first one is inside a transport, everything else that is queued on this host runs
+        to completion (tasks are atomic with respect to one another except at this one point)"""
+        h = self.hosts.get(self.cur_host)
+        if h is None:
+            return
+        self.in_second = True
+        prev = self.cur_task
+        self.second_ran = []
+        try:
+            for _ in range(50):
+                item = h.queue.get(timeout=0.001)
+                if item is None:
+                    break
+                task, key = item
+                self.second_ran.append(str(task))
+                try:
+                    task()
+                finally:
+                    h.queue.task_done(key)
+        finally:
+            self.in_second = False
+            self.cur_task = prev
 
     def _nested(self, a, b):
         """host b runs a whole iteration while host a is between the count and the unlink of a delete"""
